@@ -331,6 +331,38 @@ func drive(p *propDef, tier, replayPath string) int {
 			addV(v)
 		}
 	}
+	// values that separate processes must agree on
+	agree := map[string]map[string]int{}
+	for _, co := range outs {
+		if co.res == nil {
+			continue
+		}
+		for k, v := range co.res.Agree {
+			if agree[k] == nil {
+				agree[k] = map[string]int{}
+			}
+			agree[k][v] = co.shard
+		}
+	}
+	crossChecked := 0
+	for k, vals := range agree {
+		crossChecked++
+		if len(vals) > 1 {
+			desc := []string{}
+			for v, sh := range vals {
+				desc = append(desc, fmt.Sprintf("shard %d: %s", sh, v))
+			}
+			sort.Strings(desc)
+			class := k
+			if i := strings.Index(k, "#"); i >= 0 {
+				class = k[:i]
+			}
+			addV(&mon.Violation{Sig: "cross-process-disagreement:" + class, Detail: "separate processes computed different results for " + k + ":\n" + strings.Join(desc, "\n"), Count: 1, CaseIndex: -1, CaseName: k})
+		}
+	}
+	if crossChecked > 0 {
+		merged.Hist["keys_compared_across_processes"] = int64(crossChecked)
+	}
 	// race reports
 	raceReports := 0
 	if race {
